@@ -24,7 +24,8 @@ From SK Require Import lib.Tok lib.LGraph model.C03_Model proof.C03_Spec proof.C
                        proof.C03_PairIdsComplete proof.C03_Wrap proof.C03_DefaultBalance
                        proof.C03_DefaultEnd proof.C03_DefaultWiring
                        model.C03_Order proof.C03_Ord proof.C03_FirstFit proof.C03_OrdEnd
-                       model.C03_Reactor proof.C03_ReactorProof proof.C03_ReactorSpec proof.C03_Capstone proof.C03_LinkDefault proof.C03_LinkImplicit proof.C03_LinkBackward.
+                       model.C03_Reactor proof.C03_ReactorProof proof.C03_ReactorSpec proof.C03_Capstone proof.C03_LinkDefault proof.C03_LinkImplicit proof.C03_LinkBackward
+                       proof.C03_NoCrash proof.C03_Total.
 Import ListNotations.
 Local Open Scope Z_scope.
 
@@ -1054,4 +1055,67 @@ Theorem C03_its_list_default_bool : forall (invert : bool) (inp : rin) (tpl rc :
     total_charge (fst (its_decompose g)) = total_charge (snd (its_decompose g)).
 Proof. exact its_list_default_bool. Qed.
 Print Assumptions C03_its_list_default_bool.
+
+(** ** _explicit_h NEVER RAISES on graphs glued from rules prepared from (condition-satisfying) templates.
+    T-level: a hydrogen LEDGER ([ledger], [ledger_dl], proof/C03_ReactorSpec.v) — one entry per migrating hydrogen: the
+    atoms it leaves, the atoms it joins.  If the ledger accounts for every atom's hydrogen change, the atoms of one entry
+    carry a common pair id, and every entry leaves as many atoms as it joins, then every hydrogen-transfer group is EXACT
+    (as many hydrogens to give as to take), so the pairing succeeds for every visiting order (and by
+    C03_explicitH_ord_usage every recipient takes exactly its deficit) *)
+Theorem C03_ledger_sound : forall (T : its) (lg : ledger),
+  (forall n : N, dl_of T n = ledger_dl lg n) ->
+  (forall h : list N * list N, In h lg ->
+     exists p : N, forall x : N, In x (fst h ++ snd h) -> exists A : inode, In (x, A) (gnodes T) /\ In p (hp_of A)) ->
+  (forall h : list N * list N, In h lg -> length (fst h) = length (snd h)) ->
+  pairs_exactb T = true /\ pairs_okb T = true /\
+  forall ord : list N -> list N, (forall (l : list N) (x : N), In x (ord l) <-> In x l) -> (forall l : list N, NoDup l -> NoDup (ord l)) ->
+    explicit_h_ord ord T <> None.
+Proof. exact ledger_sound. Qed.
+Print Assumptions C03_ledger_sound.
+
+(** the default mode: the ledger of the template's removed hydrogens (each with the images of the kept non-hydrogen atoms it
+    is bonded to on the left / on the right) satisfies the three conditions — hydrogen counts of the prepared rule
+    (C03_synrule_default_pointwise), pair ids (C03_default_pair_ids_complete), gluing (labels of matched / unmatched atoms),
+    [tpl_condition] — so every graph glued from such a rule along a valid match has only exact groups *)
+Theorem C03_default_glued_exact : forall (tpl rc : its) (l r : molg) (host : hostg) (m : mapping) (T : its),
+  nodupb (node_ids tpl) = true -> (forall (k : N) (a : inode), In (k, a) (gnodes tpl) -> a_el (iH a) = a_el (iG a)) ->
+  simple_edgesb (gedges tpl) = true -> synrule tpl true = Some (rc, l, r) -> tpl_condition tpl ->
+  wf_rcb rc = true -> match_rcb host rc m = true -> glue host rc m = Some T ->
+  pairs_exactb T = true /\ pairs_okb T = true /\
+  forall ord : list N -> list N, (forall (l0 : list N) (x : N), In x (ord l0) <-> In x l0) -> (forall l0 : list N, NoDup l0 -> NoDup (ord l0)) ->
+    explicit_h_ord ord T <> None.
+Proof. exact default_glued_exact. Qed.
+Print Assumptions C03_default_glued_exact.
+
+(** ... hence the reactor's its_list never raises in the default mode ([nocrash], the hypothesis of C03_reads_stable and
+    C03_reads_return_instances) *)
+Theorem C03_default_nocrash : forall (inp : rin) (tpl rc : its) (l r : molg),
+  i_rule inp = Some (rc, l, r) -> synrule tpl true = Some (rc, l, r) ->
+  nodupb (node_ids tpl) = true -> (forall (k : N) (a : inode), In (k, a) (gnodes tpl) -> a_el (iH a) = a_el (iG a)) ->
+  simple_edgesb (gedges tpl) = true -> tpl_condition tpl ->
+  wf_hostb (i_host inp) = true -> wf_rcb rc = true ->
+  forallb (call_okb (has_XH l) (i_host inp) rc) (i_calls inp) = true ->
+  nocrash inp.
+Proof. exact default_nocrash. Qed.
+Print Assumptions C03_default_nocrash.
+
+(** THE DEFAULT MODE, TOTAL — forwards and backwards, every hypothesis an evaluated boolean (the template as written:
+    [default_tpl_okb]; the substrate: [wf_hostb]; the matcher's contract: [call_okm]): the reactor never raises; any script of
+    reads on a fresh reactor returns, read by read, the values the inputs determine; its_list returns a list; and every
+    graph in it is an instance of the prepared rule ([instance_of]: substrate side, changed atoms and bonds, in-group
+    hydrogen wiring) that conserves every element count including hydrogen and the total charge *)
+Theorem C03_default_reactor_total : forall (invert : bool) (inp : rin) (tpl rc : its) (l r : molg),
+  default_tpl_okb tpl = true ->
+  i_rule inp = synrule (if invert then invert_template tpl else tpl) true ->
+  synrule (if invert then invert_template tpl else tpl) true = Some (rc, l, r) ->
+  wf_hostb (i_host inp) = true -> forallb (call_okm (i_host inp) l) (i_calls inp) = true ->
+  nocrash inp /\
+  (forall ops : list rop, run_ops inp rs0 ops = map (spec_val inp) ops) /\
+  (exists gs : list its, spec_its inp = Some gs) /\
+  (forall (gs : list its) (g : its), spec_its inp = Some gs -> In g gs ->
+     instance_of (i_host inp) rc g /\
+     (forall e : N, elem_count e (fst (its_decompose g)) = elem_count e (snd (its_decompose g))) /\
+     total_charge (fst (its_decompose g)) = total_charge (snd (its_decompose g))).
+Proof. exact default_reactor_total. Qed.
+Print Assumptions C03_default_reactor_total.
 
